@@ -73,6 +73,58 @@ def ctx_model(mb: ModelBuilder, d: D, host_optional: bool, decorated: bool = Fal
     return mb.model(root, [])
 
 
+def failed_then_reused(pm: ProgramModel, ctx: Ctx, mb: ModelBuilder) -> None:
+    """One writer object whose transform() fails half-way (a constraint without a formula yet), the caller completes the
+    model through the public setter, and transform() is called again on the same object: the text must be the one a
+    fresh writer produces for the completed model (nothing of the failed attempt may be left in the object)."""
+    from ..absint import AbsMutation, AbsRaise, reset_global_state
+    from ..codec import PATH, new_interp, run_writer, same_content
+    from ..iostubs import VFS
+    wc = pm.cls(W)
+    where = loc(wc.unit.path, wc.node)
+    tr = pm.method(wc, "transform")
+    n, o = mb.node, mb.op
+
+    def build(complete: bool) -> AObj:
+        root = mb.feature("Root")
+        a, b = mb.feature("A"), mb.feature("B")
+        mb.relation(root, [a], 0, 1)
+        mb.relation(root, [b], 0, 1)
+        a._f["attributes"].append(mb.attribute("cost", 3, a))
+        c1 = mb.constraint("c1", n(o("IMPLIES"), n("A"), n("B")))
+        c2 = mb.constraint("c2", n(o("OR"), n("A"), n("B")))
+        if not complete:
+            c2._f["_ast"] = None                               # not given a formula yet
+        return mb.model(root, [c1, c2])
+    reset_global_state()
+    model = build(False)
+    vfs = VFS()
+    it = new_interp(pm, vfs)
+    try:
+        w = it.eval_call_class(wc, [PATH, model])
+        try:
+            it.call(tr, [w])
+            ctx.info("C11-REUSE", "failed-then-reused", where, "a constraint without a formula does not make the writer fail")
+            return
+        except (AbsRaise, AbsMutation):
+            pass
+        mb._pin(model._f["ctcs"][1], "ast", mb.ast(n(o("OR"), n("A"), n("B"))))
+        returned = it.call(tr, [w])
+        second = vfs.files.get(PATH)
+    except (AbsRaise, AbsMutation) as exc:
+        ctx.info("C11-REUSE", "failed-then-reused", where, f"a writer object used again after a failed call raises {exc.what}")
+        return
+    reset_global_state()
+    fresh = run_writer(pm, W, build(True))
+    if fresh["raise"]:
+        return
+    ctx.check(second == fresh["written"] and same_content(returned, second), "C11-REUSE", "failed-then-reused", where,
+              "a writer object whose first call failed writes, once the model is completed, what a fresh writer writes",
+              bad=f"{W}: after a transform() that failed half-way the same object, called again on the completed model, writes a "
+                  f"text that is not the one a fresh writer produces (left-overs of the failed call)")
+    reset_global_state()
+
+
 def check(pm: ProgramModel, ctx: Ctx) -> None:
     ctx.explanation = (
         "Translation validation of the Clafer export: ClaferWriter.transform is evaluated from "
@@ -135,6 +187,25 @@ def check(pm: ProgramModel, ctx: Ctx) -> None:
         validate(ctx, pm, "C11-OPS", f"shape:{nm}", ctc_model(mb, [("c", tree)]), f"constraint shape {nm}")
     validate(ctx, pm, "C11-OPS", "operator:NOT", ctc_model(mb, [("c", n(o("NOT"), n("A"))), ("d", n(o("NOT"), n(o("NOT"), n("B"))))]),
              "negation constraints")
+    # a constraint meeting the tree / another level of itself; one writer object used again; a failed call in between ----
+    from ..codec import WriterOnly, export_interactions, writer_reuse_check
+    groups: dict[str, list[Any]] = {}
+    for grp_, key_, m_, what_ in export_interactions(mb, BINARY_LOGICAL):
+        sub = Ctx(ctx.prop, ctx.tier)
+        fam = key_.split(":")[0] if grp_ == "relatives" else key_.split("_")[0].split("-")[0] if grp_ == "polarity" else \
+            key_.split("-")[0]
+        fam = fam if fam != "not" else key_.split("_")[1]
+        ok_ = validate(sub, pm, "C11-OPS", f"{grp_}:{fam}", m_, what_) is not None
+        groups.setdefault(f"{grp_}:{fam}", []).append(None if ok_ else sub.obligations[-1])
+    for gkey, res in groups.items():
+        bad_ = [r_ for r_ in res if r_ is not None]
+        if bad_:
+            ctx.obligations.append(bad_[0])
+        else:
+            ctx.ok("C11-OPS", gkey, "", f"{len(res)} models in which a constraint meets the tree / another level of itself are "
+                   f"translated")
+    writer_reuse_check(WriterOnly(pm, ctx, W, "C11"), mb, "REUSE", op="REQUIRES", abstract=False)
+    failed_then_reused(pm, ctx, mb)
     # one identifier per entity -----------------------------------------------------------------------------
     from ..codec import name_model
     for cls_ in ("plain", "space", "punct", "unicode", "digit-first", "underscore-first", "digits", "case-variant", "opword", "keyword", "tab-inside", "double-blank",
